@@ -45,6 +45,7 @@ func mapUpdatesWithKey(u *Unit, fn *ssa.Function) map[string][]*ssa.MapUpdate {
 
 func runC38(c *Ctx) {
 	u, r := c.U, c.R
+	seedfixC38(c)
 	fn := c.Fn("R-REQUIRED-KEYS", "(*AccessLogHook).OnDispatchEnd")
 	if fn == nil {
 		return
